@@ -4,10 +4,16 @@ Local Open Scope Z_scope.
 
 Notation blist := (list (N * N * N * Z)) (only parsing).
 
+(* the access-control service may change its mind about whose address an address is between two transactions: the
+   environment of the following operations changes (every theorem of the model is stated for every environment) *)
+Inductive xop := XOp (o : top) | XRebind (a u : N).
+Definition rebind (env : tenv) (a u : N) : tenv :=
+  TEnv (e_sym env) (e_issuer env) (e_feesetter env) (e_feeaddrsetter env) ((a, u) :: e_uid env).
+
 Record case := mkCase {
   c_env : tenv;
   c_init : blist;                               (* balances written at genesis *)
-  c_ops : list top;
+  c_ops : list xop;
   o_steps : list (option err * blist);          (* per operation: error class, all balances after it *)
   o_fee : feecfg; o_feeaddr : option N; o_rates : list rate; o_emission : Z;   (* token metadata at the end *)
   o_predict : list (Z * option (Z * N))         (* predictFee queries on the final state *)
@@ -21,10 +27,11 @@ Proof. solve_decision. Defined.
 Global Instance rate_eq_dec : EqDecision rate.
 Proof. solve_decision. Defined.
 
-Fixpoint m_steps (env : tenv) (st : tstate) (os : list top) : tstate * list (option err * blist) :=
+Fixpoint m_steps (env : tenv) (st : tstate) (os : list xop) : tstate * list (option err * blist) :=
   match os with
   | [] => (st, [])
-  | o :: r => let '(st', e) := t_step env st o in
+  | XRebind a u :: r => m_steps (rebind env a u) st r
+  | XOp o :: r => let '(st', e) := t_step env st o in
               let '(st'', xs) := m_steps env st' r in (st'', (e, map_to_list (ts_bal st')) :: xs)
   end.
 
@@ -116,11 +123,12 @@ Definition check_step (env : tenv) (st : tstate) (o : top) (before after : blist
     end
   end.
 
-Fixpoint check_steps (env : tenv) (st : tstate) (os : list top) (before : blist)
+Fixpoint check_steps (env : tenv) (st : tstate) (os : list xop) (before : blist)
          (obs : list (option err * blist)) : bool :=
   match os, obs with
   | [], [] => true
-  | o :: r, (e, after) :: t =>
+  | XRebind a u :: r, _ => check_steps (rebind env a u) st r before obs
+  | XOp o :: r, (e, after) :: t =>
     check_step env st o before after e && check_steps env (fst (t_step env st o)) r after t
   | _, _ => false
   end.
@@ -146,9 +154,10 @@ Definition fee_path (env : tenv) (st : tstate) (o : top) : N :=
   | OBuy _ _ _ | OBuyBack _ _ _ => match t_apply env st o with Ok _ => 256%N | Err ELimits => 512%N | Err _ => 1024%N end
   | _ => 0%N
   end.
-Fixpoint label_ops (env : tenv) (st : tstate) (os : list top) (acc : N) : N :=
+Fixpoint label_ops (env : tenv) (st : tstate) (os : list xop) (acc : N) : N :=
   match os with
   | [] => acc
-  | o :: r => label_ops env (fst (t_step env st o)) r (N.lor acc (fee_path env st o))
+  | XRebind a u :: r => label_ops (rebind env a u) st r (N.lor acc 2048%N)
+  | XOp o :: r => label_ops env (fst (t_step env st o)) r (N.lor acc (fee_path env st o))
   end.
 Definition label (c : case) : N := label_ops (c_env c) (st0 c) (c_ops c) 0%N.
